@@ -257,3 +257,15 @@ def sorter_run(ctx, P, rule="ORDER-RUN"):
         ent = found.get(nm)
         ok = ent is not None and ent[0] == w
         ctx.ob(rule, nm, ok, tu.loc(ent[1]) if ent else tu.loc(fn.node), "%s runs under %s (expected %s)" % (nm, ent[0] if ent else None, w))
+    # skip_sites is set only when BOTH bookmarks stand at the end of their tables (a default bookmark of 0 equals the row count of
+    # an EMPTY mutation table, so either one alone is not evidence that the sites are sorted)
+    for x in walk(fn.body):
+        if x.k == "IfStmt" and x.kids[1] is not None and re.search(r"skip_sites\s*=\s*true", tu.src(x.kids[1])) \
+                and not any(y.k == "IfStmt" and y.kids[1] is not None and re.search(r"skip_sites\s*=\s*true", tu.src(y.kids[1]))
+                            for y in walk(x.kids[1])):
+            c = strip(x.kids[0])
+            txt = " ".join(tu.src(x.kids[0]).split())
+            both = c is not None and c.k == "BinaryOperator" and c.op == "&&" and "sites" in estr(c.kids[0]) + estr(c.kids[1]) \
+                and "start->sites" in txt and "start->mutations" in txt and "||" not in txt
+            ctx.ob(rule, "skip_sites|both-bookmarks", both, tu.loc(x), "skip_sites requires `%s`" % txt[:90] if both else
+                   "skip_sites is set under `%s`: it must require the site AND the mutation bookmark at their row counts" % txt[:90])
